@@ -70,13 +70,16 @@ def _c13_nontrivial(req, out):
 
 CFG = {
     "level": "proof",
-    "level_text": "Lean 4 theorems over models of the three engines: validate_utf8_scalar (with skip_ascii word loop, "
-                  "err_at/line_and_column 8-byte newline kernel), broadword::accepts and the AVX2 accept kernel (lane "
-                  "predicate over c/prev1/prev2/prev3 on the zero-padded input) accept exactly the Table 3-7 automaton's "
-                  "language; error kind = first violated rule; line/column = LF count / distance to last LF; "
-                  "encode/decode round-trip for every scalar value. error offset: proved as validPrefixLen + contIdx "
-                  "(contIdx = 0 unless InvalidContinuationByte) — the property's 'offset = longest valid prefix' is "
-                  "refuted for InvalidContinuationByte (finding F6, e.g. C3 28), kept as error_offset_partial.",
+    "level_text": "Lean 4 theorems over models of the engines: validate_utf8_scalar (with the skip_ascii word loop) returns Ok "
+                  "exactly on the language of the Unicode Table 3-7 automaton (scalar_ok_iff); the AVX2 accept kernel (lane "
+                  "predicate of check_block over c/prev1/prev2/prev3 on the zero-padded input incl. the always-run tail block) "
+                  "accepts exactly that language (avx2_accept_iff), hence the simd engine/dispatcher returns the scalar result "
+                  "(simd_engine_agrees); on rejection the kind is the first violated rule and offset = longest-valid-prefix "
+                  "length + index of the offending continuation byte (error_kind_and_offset_partial, error_offset_partial); the "
+                  "property's 'offset = longest valid prefix' is refuted for InvalidContinuationByte (error_offset_refuted, "
+                  "finding F6, [C3 28]). NOT proved (correspondence + per-request model-vs-spec cross-check only): broadword "
+                  "accept scan = WellFormed (broadword_engine_agrees_partial is conditional on it), line/column = LF count "
+                  "(line_and_column word kernel), encode/decode round trip (exhaustive over all code points in the thorough tier).",
     "level_note": "Trusts Lean kernel + bv_decide certificate checker (word/lane lemmas in Proof/Utf8*.lean), the rs2lean "
                   "translation of the word kernels cut from the source, the lane semantics of the AVX2 intrinsics "
                   "(alignr/permute2x128 as 'previous N bytes'; hand-written lane expression of check_block, tied by "
@@ -86,7 +89,11 @@ CFG = {
     "variants": [{"features": []}],
     "lean_modules": ["SuccinctlyVerif.Props.C13"],
     "lean_files": ["SuccinctlyVerif/Props/C13.lean", "SuccinctlyVerif/Proof/Utf8.lean", "SuccinctlyVerif/Proof/Utf8Engines.lean",
+                   "SuccinctlyVerif/Proof/Utf8Scalar.lean", "SuccinctlyVerif/Proof/Utf8ScalarMain.lean",
+                   "SuccinctlyVerif/Proof/Utf8Avx2.lean", "SuccinctlyVerif/Proof/Utf8Codec.lean",
                    "SuccinctlyVerif/Model/Utf8.lean", "SuccinctlyVerif/Spec/Utf8.lean"],
+    "required_theorems": ["SV.Props.C13.scalar_ok_iff", "SV.Props.C13.avx2_accept_iff", "SV.Props.C13.simd_engine_agrees",
+                          "SV.Props.C13.error_kind_and_offset_partial", "SV.Props.C13.error_offset_refuted"],
     "generated": ["C13:"],
     "allow_bv_decide": True,
     "nontrivial": _c13_nontrivial,
